@@ -402,12 +402,12 @@ def generate(seed, tier):
     big = tier == "thorough"
     cases = []
     # 1. cdiv
-    ncd = 12000 if big else 2400
+    ncd = 30000 if big else 3000
     ops = gen_cdiv(rng, ncd)
     for i in range(0, len(ops), 300):
         cases.append(["case cdiv-%d row" % i] + ops[i:i + 300])
     # 2. decompositions over the families of the quantifier
-    per_weight = 110 if big else 16
+    per_weight = 400 if big else 36
     k = 0
     for name, fn, w in FAMILIES:
         for i in range(per_weight * w):
@@ -424,7 +424,7 @@ def generate(seed, tier):
             cases.append(["case dense-%d-all %s" % (n, st), mat_line(fam_dense(rng, n)), "eig", "getD"])
             cases.append(["case symmetric-%d-all %s" % (n, st), mat_line(fam_symmetric(rng, n)), "eig", "getD"])
     # 3. pow / exp on diagonalisable matrices with real spectrum; dimension check on non-square input
-    ng = 700 if big else 110
+    ng = 2000 if big else 200
     for i in range(ng):
         n = rng.choice([1, 2, 2, 3, 3, 4, 4, 5, 6, 6, 7, 8]) if not big or i % 4 else rng.randint(9, 12)
         st = STORAGE[i % 3]
@@ -452,7 +452,7 @@ def generate(seed, tier):
         n = rng.randint(2, 6)
         cases.append(["case gluecomplex-%d-%d %s" % (n, i, STORAGE[i % 3]), mat_line(fam_rotation(rng, n)), "pow " + hx(2.0), "exp"])
     # 4. getD on prescribed (d, e) through the hook: well-formed lists
-    for i in range(300 if big else 60):
+    for i in range(1000 if big else 120):
         n = pick_n(rng)
         d, e = wf_spectrum(rng, n)
         cases.append(["case setde-%d-%d %s" % (n, i, STORAGE[i % 3]), mat_line(eye(n)), "eig",
@@ -519,6 +519,20 @@ def compare(op_line, impl, model):
     return it == vals
 
 
+def _constants():
+    """the constants of the explored bounds, read from the driver's source"""
+    import os
+    p = os.path.join(os.path.dirname(os.path.dirname(os.path.abspath(__file__))), "lean", "BppModel", "Drive", "C06.lean")
+    out = {}
+    try:
+        for m in re.finditer(r"^def (c[A-Z]\w*|condGate) : Rat := (\d+)\s*--\s*(.*)$", open(p).read(), re.M):
+            out[m.group(1)] = {"value": int(m.group(2)), "bound": m.group(3).strip()}
+    except OSError:
+        pass
+    out["unit"] = "bounds are in units of machine epsilon 2^-52; norms are exact rationals of the returned doubles"
+    return out
+
+
 def coverage_extra(cases, answers):
     fam, sizes, storage = {}, {}, {}
     routes = {"symmetric(tred2+tql2)": 0, "nonsymmetric(orthes+hqr2)": 0}
@@ -546,6 +560,5 @@ def coverage_extra(cases, answers):
         "families": fam, "matrix_sizes": dict(sorted(sizes.items(), key=lambda kv: int(kv[0]))), "storage_classes": storage,
         "routes": routes, "decompositions_with_complex_pairs": pairs, "decompositions_real_spectrum": realonly,
         "explored_bounds_observed_max": {k: {"evaluations": v[0], "max_in_units_of_bound_without_constant": v[1]} for k, v in sorted(STATS.items())},
-        "explored_bounds_constants": {"residual": 200, "trace": 100, "determinant": 200, "orthonormal": 100, "cdiv": 16, "pow": 400, "exp": 400,
-                                      "unit": "machine epsilon 2^-52 times the norm product named in lean/BppModel/Drive/C06.lean"},
+        "explored_bounds_constants": _constants(),
     }
